@@ -6,7 +6,7 @@ use encoding_rs::*;
 use serde_json::{json, Value};
 use std::time::Instant;
 
-pub const RULE: &str = "case = byte string given to Encoding::for_label / for_label_no_replacement: the 228 labels x every single-byte substitution, insertion and deletion, every ASCII case mask (all masks for labels up to 12 bytes, seeded random masks beyond), padding with every combination of up to 2 (selected labels: 3) leading and trailing bytes from {09 0A 0B 0C 0D 20 00 A0 85}, label + whitespace + every byte (and mirrored), inner whitespace, over-long strings, empty / whitespace-only strings, every string of up to 4 (thorough 5) bytes over the 40-character label alphabet, every 2- and 3-token sequence over the vocabulary cut out of the labels, ~1900 charset names of other registries (IANA cs* aliases, CPython/ICU/MySQL spellings), the label between every pair of ~50 delimiters, runs of one byte of 1..=40 and 2^k+-10 bytes before/after/around the label, two simultaneous substitutions, seeded random strings over the label alphabet, every Encoding::name(). Oracle = the Standard's 'get an encoding' (strip leading/trailing TAB LF FF CR SPACE, ASCII-lowercase, exact match) on the frozen label table; for_label_no_replacement == for_label with replacement mapped to None; never a panic. Non-trivial = input that is not itself one of the 228 exact spellings; distinct = distinct byte string (by construction within a family, by content hash for random strings).";
+pub const RULE: &str = "case = byte string given to Encoding::for_label / for_label_no_replacement: the 228 labels x every single-byte substitution, insertion and deletion, every ASCII case mask (all masks for labels up to 12 bytes, seeded random masks beyond), padding with every combination of up to 2 (selected labels: 3) leading and trailing bytes from {09 0A 0B 0C 0D 20 00 A0 85}, label + whitespace + every byte (and mirrored), inner whitespace, over-long strings, empty / whitespace-only strings, every string of up to 4 (thorough 5) bytes over the 40-character label alphabet, every 2- and 3-token sequence over the vocabulary cut out of the labels, ~1900 charset names of other registries (IANA cs* aliases, CPython/ICU/MySQL spellings), the label between every pair of ~50 delimiters, runs of one byte of 1..=40 and 2^k+-10 bytes before/after/around the label, two simultaneous substitutions, seeded random strings over the label alphabet, every Encoding::name(). Oracle = the Standard's 'get an encoding' (strip leading/trailing TAB LF FF CR SPACE, ASCII-lowercase, exact match) on the frozen label table; for_label_no_replacement == for_label with replacement mapped to None; never a panic; arguments of 8 bytes and more are also passed as a sub-slice starting 1..=15 bytes after a 16-byte boundary (same answer required). Non-trivial = input that is not itself one of the 228 exact spellings; distinct = distinct byte string (by construction within a family, by content hash for random strings).";
 
 fn model(label: &[u8]) -> Option<&'static Encoding> {
     let is_ws = |b: u8| matches!(b, 0x09 | 0x0A | 0x0C | 0x0D | 0x20);
@@ -28,8 +28,54 @@ fn model(label: &[u8]) -> Option<&'static Encoding> {
     None
 }
 
+thread_local! {
+    static SHIFT_BUF: std::cell::RefCell<Vec<u8>> = const { std::cell::RefCell::new(Vec::new()) };
+}
+
+/// the same bytes at another start address: arguments of 8 bytes and more are also passed as a
+/// sub-slice starting 1..=15 bytes into a 16-aligned buffer (word-at-a-time scanning must not
+/// depend on where the slice starts)
+fn check_shifted(label: &[u8], want: Option<&'static Encoding>) -> Option<String> {
+    let shift = 1 + (fw::fnv(label) % 15) as usize;
+    SHIFT_BUF.with(|b| {
+        let mut b = b.borrow_mut();
+        let need = label.len() + 48;
+        if b.len() < need {
+            b.resize(need, 0x20);
+        }
+        let base = (16 - (b.as_ptr() as usize & 15)) & 15;
+        let off = base + shift;
+        // spaces before and after the window: a scan that leaves the slice sees plausible padding
+        for x in b[..off].iter_mut() {
+            *x = 0x20;
+        }
+        b[off..off + label.len()].copy_from_slice(label);
+        for x in b[off + label.len()..need].iter_mut() {
+            *x = 0x20;
+        }
+        let got = match fw::catch(|| Encoding::for_label(&b[off..off + label.len()])) {
+            Ok(g) => g,
+            Err(p) => return Some(format!("for_label panicked on the argument placed {} bytes after a 16-byte boundary: {}", shift, p)),
+        };
+        let same = match (got, want) {
+            (None, None) => true,
+            (Some(x), Some(y)) => std::ptr::eq(x, y),
+            _ => false,
+        };
+        if !same {
+            return Some(format!("for_label on the same bytes placed {} bytes after a 16-byte boundary = {:?}, the Standard's get-an-encoding gives {:?}", shift, got.map(|e| e.name()), want.map(|e| e.name())));
+        }
+        None
+    })
+}
+
 fn check(label: &[u8]) -> Option<String> {
     let want = model(label);
+    if label.len() >= 8 {
+        if let Some(m) = check_shifted(label, want) {
+            return Some(m);
+        }
+    }
     let got = match fw::catch(|| (Encoding::for_label(label), Encoding::for_label_no_replacement(label))) {
         Ok(g) => g,
         Err(p) => return Some(format!("for_label panicked: {}", p)),
@@ -403,13 +449,19 @@ pub fn run(ctx: &Ctx) -> i32 {
                         continue;
                     }
                     let run = vec![c; k];
-                    for form in 0..4 {
+                    for form in 0..6 {
+                        if form >= 4 && c != b' ' && c != b'\t' {
+                            continue;
+                        }
                         let v = match form {
                             0 => [&run[..], &l[..]].concat(),
                             1 => [&l[..], &run[..]].concat(),
                             2 => [&run[..], &l[..], &run[..]].concat(),
                             // run, a whitespace byte, label: the run is a separate word
-                            _ => [&run[..], b" ", &l[..]].concat(),
+                            3 => [&run[..], b" ", &l[..]].concat(),
+                            // a word, a run of whitespace, the label - and mirrored: whitespace that is not at the edge
+                            4 => [b"xy", &run[..], &l[..]].concat(),
+                            _ => [&l[..], &run[..], b"xy"].concat(),
                         };
                         st.class("label-with-long-run");
                         if !one(&v, st, false) {
